@@ -169,7 +169,7 @@ Print Assumptions pex_never_faults.
 
 Theorem pex_exact : forall av maxsz payload av' ret, pex_apply av maxsz payload = PexDone av' ret ->
   exists e rest, sm_read ext_pex payload = Ok e rest /\
-    match ent_raw_string e 0 with
+    match ent_raw_string e k_pex_added with
     | None => av' = av /\ ret = None
     | Some [] => av' = av /\ ret = Some 1
     | Some added => (av', ret) = (let '(a, r) := insert_available no_skip av maxsz (sort_and_unique (whole_records false added))
@@ -219,3 +219,17 @@ Theorem http_second_failure_after_success : forall ih ev h body msg,
   snd (http_step ih ev h body) = HEv (EvSuccess []).
 Proof. exact ProofsDht.http_second_failure_after_success. Qed.
 Print Assumptions http_second_failure_after_success.
+
+(* a find_node reply matched to its transaction: our own id in a compact `nodes` string is never contacted *)
+Theorem own_id_never_contacted : forall announce matched own target resp nodes l,
+  dht_find_node_reply announce matched own target resp nodes = FnQueries l ->
+  (length l <= search_concurrency)%nat /\
+  forall x, In x l -> fst x <> own /\ fst x <> resp /\
+                      exists b recs, nodes = Some b /\ parse_compact_nodes b = POk recs /\ In x recs.
+Proof. exact ProofsDht.own_id_never_contacted. Qed.
+Print Assumptions own_id_never_contacted.
+
+Theorem unmatched_reply_ignored : forall announce own target resp nodes,
+  dht_find_node_reply announce false own target resp nodes = FnIgnored.
+Proof. exact ProofsDht.unmatched_reply_ignored. Qed.
+Print Assumptions unmatched_reply_ignored.
